@@ -20,7 +20,27 @@ import engine                                # noqa: E402
 from engine import Check, shrink, sim_candidates, list_candidates   # noqa: E402
 import corr                                  # noqa: E402
 import gen_sim                               # noqa: E402
-import monitors as M                         # noqa: E402
+import monitors as _M                        # noqa: E402
+
+
+class _SafeMonitors:
+    """A monitor that crashes on an unexpected trace must not mask the correspondence break that
+    the same trace produces: it reports nothing instead."""
+
+    def __getattr__(self, name):
+        f = getattr(_M, name)
+        if not name.startswith("mon_"):
+            return f
+
+        def safe(*a, **k):
+            try:
+                return f(*a, **k)
+            except Exception as e:      # noqa: BLE001
+                return []
+        return safe
+
+
+M = _SafeMonitors()
 
 QUICK = {"sims": 250, "el_len": 4, "el_rand": 300, "fifo_len": 6}
 THORO = {"sims": 3000, "el_len": 5, "el_rand": 4000, "fifo_len": 8}
@@ -158,16 +178,16 @@ def run_sim_class(chk, cls, scs, mons, variant=None, batch=250, tag=None):
             for mon in mons:
                 viol += [x for x in mon(sc, r["impl"]) if x.startswith(tag)]
             if viol:
-                small = _shrink_sim(sc, mons, tag, variant)
+                small = _shrink_sim(sc, mons, tag, variant) if len(chk.violations) < 2 else sc
                 rr = corr.corr_sims([small], variant=variant)[0]
                 vs = [x for mon in mons for x in mon(small, rr["impl"]) if x.startswith(tag)]
                 chk.violation(cls, small, vs or viol, extra={"impl": rr["impl"][:200], "model": rr["model"][:200]})
             elif r["diff"] is not None:
-                small = _shrink_diff(sc, variant)
+                small = _shrink_diff(sc, variant) if len(chk.corr_breaks) < 2 else sc
                 rr = corr.corr_sims([small], variant=variant)[0]
                 chk.corr_break(cls, small, rr["diff"] or r["diff"],
                                extra={"impl": rr["impl"][:200], "model": rr["model"][:200]})
-        if len(chk.violations) + len(chk.corr_breaks) > 12:
+        if len(chk.violations) + len(chk.corr_breaks) > 6:
             return
 
 
@@ -263,7 +283,33 @@ def check_C03(chk, R, S):
     run_el_class(chk, "fifo-exhaustive", fifo_exhaustive(S["fifo_len"]))
     run_el_class(chk, "el-random", el_random(R, S["el_rand"]))
     run_sim_class(chk, "sim-bursts", [gen_burst(R) for _ in range(S["sims"])], [M.mon_C03])
+    run_sim_class(chk, "sim-timer-rearm", [gen_rearm(R) for _ in range(S["sims"])], [M.mon_C03])
     chk.exhaustive = True
+
+
+def gen_rearm(R, names=3):
+    """same-instant timers that are set, cancelled and set again, from init and from timer handlers"""
+    nn = R.randint(1, 3)
+    times = R.sample([0.5, 1.0, 1.5, 2.0], 2)
+
+    def acts(k):
+        out = []
+        for _ in range(k):
+            if R.random() < 0.7:
+                out.append(("settimer", R.randrange(names), "abs", R.choice(times)))
+            else:
+                out.append(("cancel", R.randrange(names)))
+        return out
+    script = []
+    for me in range(nn):
+        rules = [{"trig": ("init",), "nth": None, "acts": acts(R.randint(3, 9))}]
+        for _ in range(R.randint(0, 2)):
+            rules.append({"trig": ("timer", R.choice([None, 0, 1, 2])), "nth": R.randrange(3), "acts": acts(R.randint(1, 4))})
+        script.append(rules)
+    return {"handlers": ["T"] + (["R0"] if R.random() < 0.3 else []),
+            "nodes": [{"pos": (float(i), 0.0, 0.0), "ty": 0} for i in range(nn)],
+            "med": (1000.0, 0.0, 0.0), "mob": (1.0, 1.0, (0.0, 0.0, 0.0)), "asserts": [], "seed": R.randrange(1 << 30),
+            "dur": None, "maxit": None, "drv": ("run",), "script": script}
 
 
 def gen_burst(R):
@@ -352,6 +398,11 @@ def check_C05(chk, R, S):
         if R.random() < 0.1:
             sc["dur"], sc["maxit"] = R.choice([(0.0, None), (None, 0), (None, 1)])
     run_sim_class(chk, "sim-lifecycle", scs, [M.mon_C05])
+    # mixed driving: some manual steps then the blocking call; the blocking call twice
+    mixed = gen_many(R, max(60, S["sims"] // 3), dict(prof, p_steps=0.0))
+    for sc in mixed:
+        sc["drv"] = ("mixed", R.randint(0, 12)) if R.random() < 0.6 else ("runrun",)
+    run_sim_class(chk, "sim-mixed-driving", mixed, [M.mon_C05])
 
 
 VARIANTS = [{"execution_logging": True}, {"debug": True, "execution_logging": True}, {"profile": True},
@@ -406,12 +457,15 @@ def check_C06(chk, R, S):
         # two simulations interleaved in one process
         import lockstep
         pairs = [(scs[i], scs[(i + 1) % len(scs)]) for i in range(0, len(scs) - 1, 2)]
+        pairs += [(sc, sc) for sc in scs]          # twins: the same scenario twice, interleaved
         for a, b in pairs:
-            ta, tb = lockstep.run_lockstep(a, b)
+            ta, tb = lockstep.run_lockstep(a, copy.deepcopy(b) if a is b else b)
             chk.record("lockstep", {"a": _brief(a), "b": _brief(b)}, True)
             chk.validated += 2
             ra = [l for l in base[scs.index(a)]["impl"] if not l.startswith(("ret", "end"))]
             rb = [l for l in base[scs.index(b)]["impl"] if not l.startswith(("ret", "end"))]
+            if a is b:
+                b = copy.deepcopy(a)
             for nm, got, want, sc in (("first", ta, ra, a), ("second", tb, rb, b)):
                 if got != want:
                     d = corr.first_diff(want, got)
